@@ -9,6 +9,11 @@ CHECKS = {
    text="TLC exhaustively checks that the implementation-shaped model of DefaultReader/BytesReader (real constants, every source fragmentation/fault within the cfg bounds) satisfies the C04 contract; the same actions then validate ~10^4-10^5 recorded executions of the real readers (bounded-exhaustive + random histories x source behaviours), event by event: ReaderAbs decides violations, ReaderImpl (ri/len/cap/pending/err after every call) binds the model to the code.",
    note="Trusted: TLC, the scripted source and pattern recogniser of the harness, the read-only hook bufiox.VerifState. Bounds: MC cfg constants (sizes incl. 4096/4097/9000, <=3 (quick) / 4 (thorough) operations, MaxEmpty scaled to 3 in MC, real 100 in traces); traces: histories up to 40 (quick) / 300 (thorough) operations.",
    design="6 C04, 4.1, App. C"),
+ "C05": dict(
+   technique="TLA+ model (WriterImpl/WriterAbs) checked by TLC + trace validation of real bufiox writers by TLC",
+   text="TLC exhaustively checks the stitching design of DefaultWriter/BytesWriter (delayed copy at Flush): stitch windows tile the final buffer, every handed-out region lies in its own window, regions are contiguous in order, sticky sink error, WrittenLen. The same actions validate recorded executions of the real writers (exhaustive histories <=3 ops + final Flush over boundary sizes, random histories, eager/lazy/re-filled regions with distinct content, sink failing at the k-th write, bytes targets nil/empty/partial/full): WriterAbs judges the bytes the sink received, WriterImpl binds len/cap/parked buffers.",
+   note="Trusted: TLC, recording sink and per-region pattern recogniser of the harness, hook bufiox.VerifState. Bounds: MC <=4 (quick) / 5 (thorough) operations over sizes {0,1,4095,4096,4097,9000,20000}; traces up to 40/200 operations. A second flush cycle of a bytes writer is judged for errors/WrittenLen only.",
+   design="6 C05, 4.2, App. C"),
 }
 NOT_YET = "check not built yet in this revision of /verif (work in progress; see DESIGN.md section 6 for the plan)"
 
